@@ -1214,7 +1214,15 @@ func runC22(tier, replay string) {
 		}
 		rr := vkit.NewRand(w.Seed)
 		var fired []string
-		if w.Witness.Part == "B" {
+		if w.Signature == "delivery:backoff-out-of-bounds:long-failing-entry" || w.Signature == "delivery:retried-before-next-attempt-time:long-failing-entry" {
+			for i, lc := range []struct {
+				maxAttempts int
+				minB, maxB  time.Duration
+			}{{0, time.Second, 300 * time.Second}, {0, 60 * time.Second, 1000 * time.Hour}, {2000, 250 * time.Millisecond, 30 * time.Second}} {
+				f, _ := runC22LongFailing(r, i, lc.maxAttempts, lc.minB, lc.maxB, watchdog)
+				fired = append(fired, f...)
+			}
+		} else if w.Witness.Part == "B" {
 			var inc string
 			fired, inc = runC22Delivery(r, w.Witness.Scenario, watchdog)
 			if inc != "" {
@@ -1278,11 +1286,21 @@ func runC22(tier, replay string) {
 		}(i)
 	}
 	wg.Wait()
+	// long-failing entries: default limits (1 s .. 300 s, unlimited attempts), a wide range and a large finite limit
+	for i, lc := range []struct {
+		maxAttempts int
+		minB, maxB  time.Duration
+	}{{0, time.Second, 300 * time.Second}, {0, 60 * time.Second, 1000 * time.Hour}, {2000, 250 * time.Millisecond, 30 * time.Second}} {
+		_, inc := runC22LongFailing(r, i, lc.maxAttempts, lc.minB, lc.maxB, watchdog)
+		if inc != "" {
+			problems = append(problems, inc)
+		}
+	}
 	sort.Strings(problems)
 	for _, p := range problems {
 		r.Inconclusive(p)
 	}
-	for _, must := range []string{"faults.injected.storage-before", "faults.injected.storage-after", "faults.injected.partstore-before", "faults.injected.save-before", "faults.injected.save-after", "delivery.dead-lettered", "delivery.delivered-after-retries", "delivery.backoff-checked.step-1", "delivery.retry-not-before-next-attempt-checked", "mutations.committed-with-overlapping-rules", "mutations.committed-with-no-matching-rule"} {
+	for _, must := range []string{"delivery.backoff-checked.long-failing", "faults.injected.storage-before", "faults.injected.storage-after", "faults.injected.partstore-before", "faults.injected.save-before", "faults.injected.save-after", "delivery.dead-lettered", "delivery.delivered-after-retries", "delivery.backoff-checked.step-1", "delivery.retry-not-before-next-attempt-checked", "mutations.committed-with-overlapping-rules", "mutations.committed-with-no-matching-rule"} {
 		if r.Counter(must) == 0 {
 			r.Inconclusive("never observed: " + must)
 		}
